@@ -9,7 +9,7 @@ from .refmodel import gmatch, seg_match, last_of
 
 
 class AllModel:
-    def __init__(self, model, exists, all_config=None):
+    def __init__(self, model, exists, all_config=None, config_aware=False):
         from spil import conf, FindInConstants, FindInPaths
         from spil.sid.read import tools
         self.model = model
@@ -19,6 +19,7 @@ class AllModel:
         self.FIP = FindInPaths
         self.tools = tools
         self.all_config = all_config
+        self.config_aware = config_aware        # the data configuration dispatches on 'config' (lib/dataconf_variant.py)
         self.unbacked = set()
 
     def unfold(self, s):
@@ -61,7 +62,8 @@ class AllModel:
         if isinstance(F, self.FIP):
             # the configurations used here create their path Finder without a name: it serves the DEFAULT path configuration
             # (not read from the live object: a Finder looking at another tree must not go unnoticed)
-            ex = self.exists.get(self.conf.default_path_config or F.config_name, set())
+            cfg = (self.all_config if (self.config_aware and self.all_config) else None) or self.conf.default_path_config or F.config_name
+            ex = self.exists.get(cfg, set())
             return {e for e in ex if gmatch(sstr, e) and self.model.natural(e).name == tname}
         return None
 
